@@ -77,14 +77,17 @@ def new_system(init_name="a", pay=0):
     return System("sys", _comp({"cls": "Source", "name": init_name, "pay": pay}))
 
 
-def replay_sim(rec, behaviours, analyses=None):
-    """every simulated behaviour becomes one recorded trace"""
+def replay_sim(rec, behaviours, analyses=None, mid=None, rng=None):
+    """every simulated behaviour becomes one recorded trace; mid(s) (optional) is called between edits at random
+    points - analyses in the middle of a history must not influence what later reports show"""
     n = 0
     for states in behaviours:
         s = new_system()
         for st in states:
             do_call(s, st["act"]["op"], st["act"]["a"])
             n += 1
+            if mid and rng.random() < 0.3:
+                mid(s)
         if analyses:
             analyses(s)
     return n
